@@ -169,6 +169,11 @@ impl Prop for EarlyStop {
         if k > 1 {
             rayon_metrics(&mut m, &prefixes[n as usize].rayon);
         }
+        // the budget is never exceeded: with budget 0 no iteration runs, so both bounds are still
+        // infinite (a finite bound is the trace of an iteration)
+        if pre[0].bounds.iter().any(|b| !(b.is_infinite() && *b > 0.0)) {
+            return finish(m, h, viol("budget-exceeded", "zero-budget", format!("{} K={k}: a solve with budget 0 returned bounds {:?}: an iteration ran", case.method.name(), pre[0].bounds)), traces);
+        }
         m.nontrivial_key = Some(case.config_hash() ^ traces[0].hash());
         let btol = bound_tol(st.d(), st.n());
         for (thr, label, budget, o) in &runs {
